@@ -21,11 +21,12 @@ def main():
     last = [-1, 0]
 
     def tick(*a):
-        # generic wall-clock watchdog: no judged case for 150 s => give up on this shard (inconclusive, never a verdict)
+        # generic wall-clock watchdog: no judged case for STALL_S (default 150 s) => give up on this shard
+        # (inconclusive, never a verdict)
         cur = ctx.evaluations + sum(ctx.counters.values())
         if cur == last[0]:
             last[1] += 1
-            if last[1] >= 5:
+            if last[1] >= max(1, int(getattr(mod, "STALL_S", 150)) // 30):
                 raise Stalled()
         else:
             last[0], last[1] = cur, 0
@@ -62,7 +63,7 @@ def main():
         ctx.inconc(str(e))
     except Stalled:
         import traceback
-        ctx.inconc("shard %d made no progress for 150 s (wall-clock watchdog): %s" % (ctx.i, traceback.format_exc(limit=-4)[-400:]))
+        ctx.inconc("shard %d made no progress for %d s (wall-clock watchdog): %s" % (ctx.i, getattr(mod, "STALL_S", 150), traceback.format_exc(limit=-4)[-400:]))
     signal.setitimer(signal.ITIMER_REAL, 0)
     if cov is not None:
         os.makedirs(os.environ["VERIF_COV"], exist_ok=True)
